@@ -482,7 +482,11 @@ class ThrottleStreamIO(StreamIO):
             if curr_throttle.limit:
                 tasks.append(asyncio.create_task(curr_throttle.wait()))
         if tasks:
-            await asyncio.wait(tasks)
+            try:
+                await asyncio.wait(tasks)
+            finally:
+                for task in tasks:
+                    task.cancel()
 
     def append(self, name, data, start):
         """
